@@ -209,6 +209,9 @@ func main() {
 	if len(st.Samples) == 0 {
 		cov["samples"] = []interface{}{map[string]interface{}{"theorems": lr.Theorems}}
 	}
+	if pd.assumptions == nil {
+		pd.assumptions = []string{}
+	}
 	ev := Evidence{PropertyID: *prop, Tier: *tier, Seed: *seed, Level: pd.level, Coverage: cov,
 		Assumptions: pd.assumptions, WallS: time.Since(startTime).Seconds(), Violations: violations}
 	if *evidence != "" {
